@@ -89,6 +89,15 @@ def check(rep, ctx):
                           file=ctx.sm.require(codec.module).rel if ctx.sm.get(codec.module) else "", line=codec.node.lineno)
             rep.count(R_X, st["fault_paths"], instance=f"fault-paths-{direction}")
             rep.extra[f"fault_injection_{direction}"] = st
+    R_CS = rep.rule("C19-closure-state", "no function mutates a container created in its enclosing function (state that lives as long as the "
+                    "closure -- for a decorator or a cached factory, as long as the process -- and is shared by all calls and threads)", floor=0,
+                    necessary_because="a 'pending' set kept by a caching decorator makes a concurrent cold-cache build raise RecursionError")
+    ALL_MODULES = [m.name for m in ctx.sm.by_prefix("kio") if not m.name.startswith("kio.schema.")]
+    for m in scan.captured_mutations(ctx, ALL_MODULES):
+        rep.check(R_CS, False, construct=m["function"], stmt=m["stmt"],
+                  message=f"`{m['stmt']}` mutates {m['name']!r} ({m['how']}), created at line {m['created_line']} of the enclosing {m['outer']}: "
+                          f"the result of a call depends on what earlier or concurrent calls left in it", file=m["file"], line=m["line"])
+    rep.count(R_CS, len(ALL_MODULES), instance="scan")
     R_MK = rep.rule("C19-memo-keys", "memoised functions are keyed only by values whose equality implies identical behaviour "
                     "(type objects, bools, literals)", floor=2,
                     necessary_because="functools caches are keyed by == and hash: 1 == 1.0 == True, and datetimes differing only in fold "
